@@ -95,7 +95,7 @@ class C16(Check):
 
     def spaces(self, tier):
         Q = tier == "quick"
-        plan = [("full", 4, 1)] if Q else [("full", 5, 2), ("qmdonly", 7, 2)]
+        plan = [("full", 4, 2)] if Q else [("full", 5, 2), ("qmdonly", 7, 2)]
         out = []
         for mname, depth, plen in plan:
             m = self._model(mname)
